@@ -374,6 +374,9 @@ class Run:
             self.state_checks(op)
             self.event(self.step_i, 'msg', op['type'], path, outcome, tuple(out['warnings']), digest(B))
             return
+        # -- a later change made directly to the running order's XML must not reach the message object
+        self.poke(self.P.xml, obj.xml, lambda: str(obj) != snap, op,
+                  'editing the running order\'s XML changes the message object that was merged')
         # -- N: always fresh objects, never shared with anything (reference for the twin, C13)
         fresh = MT.MosFile.from_string(text if text is not None else data)
         self.Nn, outN, _, sN = self.merge(self.Nn, fresh)
@@ -402,6 +405,21 @@ class Run:
         self.state_checks(op)
         self.event(self.step_i, 'msg', op['type'], path, outcome, tuple(out['warnings']), digest(B))
 
+    def poke(self, edited_root, other_root, changed, op, what):
+        """behavioural probe for shared mutable content: edit an element of *edited_root* that is also
+        reachable from *other_root* and see whether the other side changed; the edit is undone"""
+        ids = {id(e) for e in other_root.iter()}
+        for e in edited_root.iter():
+            if id(e) in ids:
+                self.probes['shared-element'] += 1
+                e.set('x-verif-poke', '1')
+                try:
+                    if changed():
+                        self.add('C13.shared-edit', what, op, {'shared_tag': e.tag})
+                finally:
+                    del e.attrib['x-verif-poke']
+                return
+
     def drain_twin(self, now):
         while self.T_queue and self.T_queue[0][0] <= now:
             _due, obj, snap, j, op, mstep = self.T_queue.pop(0)
@@ -412,6 +430,9 @@ class Run:
             self.T, o, _, s = self.merge(self.T, obj)
             self.sT_last = s
             self.stats['twin.merge'] += 1
+            sP = str(self.P)
+            self.poke(self.T.xml, self.P.xml, lambda: str(self.P) != sP, op,
+                      'two running orders share mutable content through a message object')
             excN, sN, wN = self.N_hist[j]
             if (o['exc'], s) != (excN, sN):
                 self.add('C13.reuse', 're-using a message object gives a different result than a fresh copy', op, {'mode': 'twin'})
